@@ -215,6 +215,8 @@ def layout(draw, max_n=64, max_parts=5, backends=('flat', 'flat', 'npy', 'array'
         lay['open'] = draw(st.sampled_from(['path', 'reader']))
     elif lay['dtype'] in ('float32', 'float64', '>f4') and draw(st.integers(0, 2)) == 0:
         lay['nonfinite'] = True         # NaN / +-inf samples (not offered to the integer codec)
+    if backend != 'array' and draw(st.integers(0, 3)) == 0:
+        lay['relpath'] = True           # opened by relative name, then the process changes directory
     return lay
 
 
@@ -241,8 +243,17 @@ class OpenReader(object):
         self.A = rec.values(lay['n'], lay['nch'], lay['dtype'], lay.get('salt', 0),
                             nonfinite=lay.get('nonfinite', False))
         self.mt = None
+        self._cwd = None
+        rel = bool(lay.get('relpath')) and lay['backend'] != 'array'
+
+        def arg_of(p):
+            # relative spelling: the process sits in the recording's directory while opening
+            return type(p)(p.name) if rel else p
         try:
             b = lay['backend']
+            if rel:
+                self._cwd = os.getcwd()
+                os.chdir(str(self.dir))
             if b == 'cbin':
                 self.sample_rate = 1.0
                 path = rec.write_cbin(d, self.A, sample_rate=1.0, chunk_duration=lay['chunk'])
@@ -253,10 +264,11 @@ class OpenReader(object):
                 if lay.get('open') == 'reader':
                     import mtscomp
                     self.mt = mtscomp.Reader(n_threads=lay.get('n_threads', 1))
-                    self.mt.open(path)
+                    self.mt.open(arg_of(path))
                     self.reader = self.must_return('get_ephys_reader', get_ephys_reader, self.mt)
                 else:
-                    self.reader = self.must_return('get_ephys_reader', get_ephys_reader, path)
+                    self.reader = self.must_return('get_ephys_reader', get_ephys_reader,
+                                                   arg_of(path))
                     self.mt = getattr(self.reader, 'reader', None)
             else:
                 self.sample_rate = rec.rate_for_chunk(lay['chunk'])
@@ -269,7 +281,7 @@ class OpenReader(object):
                     if final:
                         os.replace(p, final / p.name)
                         p = final / p.name
-                    self.reader = self.must_return('get_ephys_reader', get_ephys_reader, p,
+                    self.reader = self.must_return('get_ephys_reader', get_ephys_reader, arg_of(p),
                                                    sample_rate=self.sample_rate)
                 else:
                     paths = rec.write_flat(d, self.A, lay['parts'], lay['offset'],
@@ -278,12 +290,28 @@ class OpenReader(object):
                         for p in paths:
                             os.replace(p, final / p.name)
                         paths = [final / p.name for p in paths]
-                    arg = paths if (len(paths) > 1 or lay.get('salt', 0) % 2) else paths[0]
+                    paths_given = [arg_of(p) for p in paths]
+                    arg = paths_given if (len(paths) > 1 or lay.get('salt', 0) % 2) \
+                        else paths_given[0]
                     self.reader = self.must_return(
                         'get_ephys_reader', get_ephys_reader, arg, n_channels=lay['nch'],
                         dtype=np.dtype(lay['dtype']), offset=lay['offset'],
                         sample_rate=self.sample_rate)
+            if rel:
+                # ... and moves on afterwards, into a directory that holds equally named files of
+                # another session
+                decoy = Path(self.dir) / 'other_session'
+                decoy.mkdir(exist_ok=True)
+                if b == 'npy':
+                    np.save(decoy / 'raw.npy', self.A[::-1] + 1)
+                elif b == 'flat':
+                    rec.write_flat(decoy, (self.A[::-1] + 1).astype(self.A.dtype), lay['parts'],
+                                   lay['offset'], ext=lay.get('ext', '.dat'),
+                                   order=lay.get('names', 'asc'))
+                os.chdir(str(decoy))
         except BaseException:
+            if self._cwd is not None:
+                os.chdir(self._cwd)
             self._cm.__exit__(None, None, None)
             raise
         return self
@@ -304,5 +332,7 @@ class OpenReader(object):
                 except Exception:
                     pass
         finally:
+            if self._cwd is not None:
+                os.chdir(self._cwd)
             self._cm.__exit__(None, None, None)
         return False
